@@ -20,6 +20,28 @@ ATOMS = ["{{", "}}", "{{{", "}}}", "[[", "]]", "[", "]", "|", "||", "!", "!!", "
 MAGIC = "\U00102041"
 
 
+def placeholder_outside_strings(node):
+    if isinstance(node, str):
+        return None
+    magic = lambda x: any(0x10203D <= ord(ch) <= 0x10FFF0 for ch in str(x))
+    for k, v in (node.get("at") or {}).items():
+        if magic(k) or magic(v):
+            return ("attrs", node.get("k"))
+    if magic(node.get("s", "")):
+        return ("sarg", node.get("k"))
+    for key in ("c", "d"):
+        for x in node.get(key, []) or []:
+            r = placeholder_outside_strings(x)
+            if r:
+                return r
+    for l in node.get("a", []) or []:
+        for x in l:
+            r = placeholder_outside_strings(x)
+            if r:
+                return r
+    return None
+
+
 def soup(rng, n):
     return "".join(rng.choice(ATOMS) for _ in range(n))
 
@@ -193,6 +215,14 @@ def run(run):
             if o["pstack"] != 0:
                 run.property_failure("c01:open-node-state-left", "parser_stack has %d nodes after parse(%r)" % (o["pstack"], t[:300]),
                                      {"text": t, "kw": kw})
+            if not has_magic:
+                # "no internal placeholder character appears anywhere in the tree": attribute names and values and the sarg
+                # field too (strings in child lists and arguments are clause 1 of Model.Tree.wf)
+                where = placeholder_outside_strings(o["tree"])
+                if where:
+                    run.property_failure("c01:not-well-formed:placeholder-in-%s" % where[0],
+                                         "parse(%r, %r): an internal placeholder character is left in %s of a %s node"
+                                         % (t[:300], kw, where[0], where[1]), {"text": t, "kw": kw})
             if tree_size(o["tree"]) > 3000:
                 continue
             coq_cases.append(coq_node(o["tree"]))
@@ -209,7 +239,8 @@ def run(run):
         clauses = sorted(set(int(x) for x in re.findall(r"\d+", m.group(1)))) if m else []
         names = ",".join(CLAUSES.get(c, str(c)) for c in clauses)
         extra = ":placeholder-in-input" if has_magic else (":heading-line-with-pre" if "level" in names and "<pre" in texts[i].lower() else "")
-        if not extra and "level" in names and re.search(r"^=+[^\n]*=[ \t]+=+[ \t]*$", texts[i], flags=re.M):
+        if not extra and "level" in names and (re.search(r"^=+[^\n]*=[ \t]+=+[ \t]*$", texts[i], flags=re.M)
+                                               or re.search(r"^=+[ \t]+=[^\n]*=[ \t]*$", texts[i], flags=re.M)):
             extra = ":heading-closing-equals-separated-by-blank"
         if not extra and "level" in names and any(
                 ln.lstrip().startswith("=") and (ln.count("{{") > ln.count("}}") or ln.count("[[") > ln.count("]]"))
